@@ -792,4 +792,132 @@ Section Protocol.
     destruct (phase (ws st w)); discriminate.
   Qed.
 
+
+  (* ------------------------------------------------------------------------------------------------------------------ *)
+  (* (2) failures are never lost *)
+  Lemma failed_not_all_finished : forall a f rp sn x, Inv a f rp sn -> In x (failed a) -> ~ incl (all_uuids p) (finished a).
+  Proof.
+    intros a f rp sn x H Hx Hall.
+    apply (k_failed _ _ _ _ H) in Hx as Hr. destruct (k_rp _ _ _ _ H x false Hr) as [w Hw].
+    destruct (k_sent_started _ _ _ _ H w x Hw) as [_ (t & Ht & Et)].
+    pose proof (Hne t Ht) as Hn. destruct (uuids t) as [|u us] eqn:Eu; [congruence|].
+    assert (Hu : In u (finished a)).
+    { apply Hall. unfold all_uuids. apply in_flat_map. exists t. split; [exact Ht | rewrite Eu; left; reflexivity]. }
+    destruct (proj2 (k_i1 _ _ _ _ H) u Hu) as (s' & Hs' & Hus' & Hd).
+    assert (s' = t) by (apply (Hdj s' t u); auto; rewrite Eu; left; reflexivity). subst s'. rewrite Et in Hd.
+    destruct (k_i23 _ _ _ _ H) as [_ (_ & _ & Hdf & _)]. exact (Hdf x Hd Hx).
+  Qed.
+
+  (* the source tests the while-condition before the error flag, Model/Orch.v the other way round: no difference *)
+  Lemma head_src_loop_head_inv : forall a f rp sn, Inv a f rp sn -> head_src p a = loop_head p a.
+  Proof.
+    intros a f rp sn H. unfold head_src, loop_head. destruct (failed a) as [|x fl] eqn:Ef; [destruct (finished a); reflexivity|].
+    destruct (finished a) as [|u fin] eqn:Efin; [reflexivity|]. rewrite <- Efin.
+    destruct (subset (all_uuids p) (finished a)) eqn:Es; [|reflexivity]. exfalso.
+    apply subset_incl in Es. apply (failed_not_all_finished a f rp sn x H); [rewrite Ef; left; reflexivity | exact Es].
+  Qed.
+
+  Definition xk (q : opc) : option exitk :=
+    match q with PFinally x | PTerm x _ | PJoin x _ | PDrop x | PExited x => Some x | _ => None end.
+
+  Definition XInv (st : pst) : Prop :=
+    (xk (pc st) = Some XNormal -> failed (o st) = [] /\ finished (o st) <> [] /\ incl (all_uuids p) (finished (o st))) /\
+    (xk (pc st) = Some XRaisedHead -> failed (o st) <> []).
+
+  Ltac xsolve HX :=
+    unfold XInv in *; cbn in *;
+    repeat match goal with E : pc _ = _ |- _ => rewrite E in HX; clear E end; cbn in *;
+    first [ exact HX | split; intros X; try discriminate X; try (inversion X; subst); tauto ].
+
+  Lemma step_XInv : forall st l st', SInv st -> XInv st -> step c st l = Some st' -> XInv st'.
+  Proof.
+    intros st l st' H HX S. pose proof (step_SInv st l st' H S) as H'. unfold SInv in *. destruct l; cbn in S.
+    - (* OHead *) destruct (pc st) eqn:Epc; try discriminate S. destruct (head_src p (o st)) eqn:Eh; inv_some S; unfold XInv; cbn.
+      + split; intros X; discriminate X.
+      + split; intros X; [|discriminate X]. unfold head_src in Eh. destruct (finished (o st)) as [|u fin] eqn:Efin.
+        * destruct (failed (o st)); discriminate Eh.
+        * rewrite <- Efin in *. destruct (subset (all_uuids p) (finished (o st))) eqn:Es; [|destruct (failed (o st)); discriminate Eh].
+          apply subset_incl in Es. split; [|split; [rewrite Efin; discriminate | exact Es]].
+          destruct (failed (o st)) as [|x fl] eqn:Ef; [reflexivity|]. exfalso.
+          apply (failed_not_all_finished _ _ _ _ x H); [rewrite Ef; left; reflexivity | exact Es].
+      + split; intros X; [discriminate X|]. unfold head_src in Eh.
+        destruct (failed (o st)); [|discriminate]. destruct (finished (o st)); [discriminate Eh|]. destruct (subset _ _); discriminate Eh.
+    - des S; inv_some S; xsolve HX.
+    - des S; inv_some S; xsolve HX.
+    - des S; inv_some S; xsolve HX.
+    - des S; inv_some S; xsolve HX.
+    - des S; inv_some S; xsolve HX.
+    - des S; inv_some S; xsolve HX.
+    - destruct (pc st) eqn:Epc; try discriminate S. destruct (nth_error p i) as [s|]; [|discriminate S].
+      destruct (negb (is_fin s (o st)) && negb (cur_running s (o st)) && can_run s (o st)); [|discriminate S].
+      destruct ok; [unfold submit in S; des S|]; inv_some S; unfold XInv; cbn; split; intros X; discriminate X.
+    - des S; inv_some S; xsolve HX.
+    - des S; inv_some S; xsolve HX.
+    - des S; inv_some S; xsolve HX.
+    - des S; inv_some S; xsolve HX.
+    - des S; inv_some S; xsolve HX.
+    - des S; inv_some S; xsolve HX.
+    - des S; inv_some S; xsolve HX.
+    - des S; inv_some S; xsolve HX.
+    - des S; inv_some S; xsolve HX.
+    - des S; inv_some S; xsolve HX.
+    - (* WDone *)
+      destruct (phase (ws st w)) eqn:Eph; try discriminate S. destruct (wfail c s); [discriminate S|].
+      destruct (mp c); inv_some S; exact HX.
+    - (* WFail *)
+      destruct (phase (ws st w)) eqn:Eph; try discriminate S. destruct (wfail c s); [|discriminate S].
+      destruct (crashpt_eqb c0 c1); [|discriminate S]. inv_some S. unfold XInv in *. cbn in *. destruct HX as [X1 X2]. split.
+      + intros X. exfalso. destruct (X1 X) as (_ & _ & Hall).
+        apply (failed_not_all_finished _ _ _ _ s H'); [left; reflexivity | exact Hall].
+      + intros _. discriminate.
+    - des S; inv_some S; xsolve HX.
+    - des S; inv_some S; xsolve HX.
+  Qed.
+
+  Lemma reach_XInv : forall st, reach c st -> XInv st.
+  Proof.
+    intros st [tr E].
+    assert (G : forall tr' st0 st1, SInv st0 -> XInv st0 -> exec c st0 tr' = Some st1 -> XInv st1).
+    { clear E. induction tr' as [|l tr' IH]; intros st0 st1 H0 X0 E; cbn in E; [inversion E; subst; exact X0|].
+      destruct (step c st0 l) as [st2|] eqn:S; [|discriminate].
+      eapply IH; [eapply step_SInv; eauto | eapply step_XInv; eauto | exact E]. }
+    apply (G tr pinit st); [unfold SInv, pinit; cbn; apply Inv_init | | exact E].
+    unfold XInv, pinit; cbn. split; intros X; discriminate X.
+  Qed.
+
+  Lemma failure_reported_l : forall st s, reach c st -> In (s, false) (replies st) -> failure_reported st s.
+  Proof.
+    intros st s R Hr. pose proof (reach_SInv st R) as H. pose proof (reach_XInv st R) as [X1 _].
+    assert (Hf : In s (failed (o st))) by (apply (k_failed _ _ _ _ H); exact Hr).
+    unfold failure_reported. repeat split.
+    - exact Hf.
+    - intros Hd. destruct (k_i23 _ _ _ _ H) as [_ (_ & _ & Hdf & _)]. exact (Hdf s Hd Hf).
+    - intros Ht. pose proof (nodup_fst_functional _ s true false (k_rp_nodup _ _ _ _ H) Ht Hr). discriminate.
+    - intros x Epc ->. rewrite Epc in X1. cbn in X1. destruct (X1 eq_refl) as [E _]. rewrite E in Hf. destruct Hf.
+  Qed.
+
+  (* the error the caller sees at the loop head is a real failure of a started step that never counted as done *)
+  Lemma raised_head_origin_l : forall st, reach c st -> xk (pc st) = Some XRaisedHead ->
+    failed (o st) <> [] /\ forall s, In s (failed (o st)) ->
+      In (s, false) (replies st) /\ In s (started_ids (o st)) /\ ~ In s (done (o st)) /\ exists t, In t p /\ sid t = s.
+  Proof.
+    intros st R Ex. pose proof (reach_SInv st R) as H. pose proof (reach_XInv st R) as [_ X2]. split; [exact (X2 Ex)|].
+    intros s Hf. apply (k_failed _ _ _ _ H) in Hf as Hr. destruct (k_rp _ _ _ _ H s false Hr) as [w Hw].
+    destruct (k_sent_started _ _ _ _ H w s Hw) as [Hs Ht]. repeat split; auto.
+    intros Hd. destruct (k_i23 _ _ _ _ H) as [_ (_ & _ & Hdf & _)]. exact (Hdf s Hd Hf).
+  Qed.
+
+  Lemma normal_exit_clean_l : forall st, reach c st -> xk (pc st) = Some XNormal ->
+    failed (o st) = [] /\ (forall s, ~ In (s, false) (replies st)) /\ forall t, In t p -> In (sid t) (done (o st)).
+  Proof.
+    intros st R Ex. pose proof (reach_SInv st R) as H. pose proof (reach_XInv st R) as [X1 _]. destruct (X1 Ex) as (Ef & _ & Hall).
+    split; [exact Ef|]. split.
+    - intros s Hr. apply (k_failed _ _ _ _ H) in Hr. rewrite Ef in Hr. destruct Hr.
+    - intros t Ht. pose proof (Hne t Ht) as Hn. destruct (uuids t) as [|u us] eqn:Eu; [congruence|].
+      assert (Hu : In u (finished (o st))).
+      { apply Hall. unfold all_uuids. apply in_flat_map. exists t. split; [exact Ht | rewrite Eu; left; reflexivity]. }
+      destruct (proj2 (k_i1 _ _ _ _ H) u Hu) as (s' & Hs' & Hus' & Hd).
+      assert (s' = t) by (apply (Hdj s' t u); auto; rewrite Eu; left; reflexivity). subst s'. exact Hd.
+  Qed.
+
 End Protocol.
